@@ -483,7 +483,8 @@ impl<'t, 'd> GGen<'t, 'd> {
             }
             13 => {
                 let a = self.gen(d, guarded);
-                let l = format!("L{}", self.tag());
+                // a small pool of label texts: the same text then occurs at several levels of one grammar
+                let l = format!("L{}", self.t.pick(3));
                 G::Labelled(b(a), l, self.t.chance(1, 2))
             }
             14 => {
